@@ -56,6 +56,13 @@ structure Cfg where
       `hostlist_next` looks its record up by position), so hosts pushed later come next;
       `hostlist_pop` steps iterators that stood on the popped host back -/
   fixEndPush : Bool := false
+  /-- F16-UNIQ-NORESET: `hostlist_uniq` / `hostlist_sort` reset the iterators also when the list has
+      at most one range record (no early return) -/
+  fixUniqReset : Bool := false
+  /-- F16-DELETE-UNDER-ITERATOR / F16-MULTI: when a host is deleted out of a record that stays
+      (`hostlist_delete_nth`, `hostlist_remove`), every iterator in that record is kept on the host
+      it handed out last (`hostlist_host_deleted`) -/
+  fixIterDelete : Bool := false
   deriving DecidableEq, Repr, Inhabited
 
 /-- the code as found -/
@@ -63,13 +70,15 @@ def Cfg.unchanged : Cfg :=
   { fixUlongMax := false, fixDigits := false, fixIterSuffix := false, fixCurTok := false,
     fixSuffixBal := false, fixHostBuf := false, fixNth := false, fixRemoveDepth := false,
     fixPopIter := false, fixCmpTrunc := false, fixDeleteAll := false, fixPushLoop := false,
-    fixEndPush := false }
+    fixEndPush := false, fixUniqReset := false,
+    fixIterDelete := false }
 /-- the code with findings/C01.patch, C15.patch (and D24 of C16.patch) applied -/
 def Cfg.repaired : Cfg :=
   { fixUlongMax := true, fixDigits := true, fixIterSuffix := true, fixCurTok := true,
     fixSuffixBal := true, fixHostBuf := true, fixNth := true, fixRemoveDepth := true,
     fixPopIter := true, fixCmpTrunc := true, fixDeleteAll := true, fixPushLoop := true,
-    fixEndPush := true }
+    fixEndPush := true, fixUniqReset := true,
+    fixIterDelete := true }
 
 /-! ### `unsigned long` -/
 def U64 : Nat := 18446744073709551616
